@@ -29,7 +29,8 @@ def handleFail (op : Json) : R Json := do
   let errLines := (evs.filter (· == .errLine)).length
   let term := evs.getLast? == some Deliver.DEv.term
   return obj [("delivered", jarr jnat wrote), ("errorLines", jnat errLines), ("terminal", jbool term),
-              ("deliveredAtTerminal", jarr jnat (if term then wrote else []))]
+              ("deliveredAtTerminal", jarr jnat (if term then wrote else [])),
+              ("syncedAtTerminal", jarr jnat (if term then Deliver.syncedAtTerminal c else []))]
 
 def handle (op : Json) : R Json := do
   if strD op "k" "" == "failterm" then return ← handleFail op
